@@ -478,22 +478,22 @@ PLAN = [
     ("iwls", "vp", 3, "dict", "default", "forced", "post", "x", None, 2, 12),
     ("iwls", "vp", 3, "dict", "default", "free", "post", "ba", None, 6, 30),
     # several keys, handed to the kernel in NON-alphabetical order (forced stream: constant z, see gen_cases)
-    ("iwls", "vp", 3, "dict", "default", "forced", "post", "ba", None, 2, 10),
-    ("iwls", "p2", 2, "dict", "default", "forced", "post", "si", None, 2, 10),
+    ("iwls", "vp", 3, "dict", "default", "forced", "post", "ba", None, 1, 10),
+    ("iwls", "p2", 2, "dict", "default", "forced", "post", "si", None, 1, 10),
     ("iwls", "p2", 2, "liesel", "default", "forced", "post", "si", None, 2, 10),
     ("iwls", "p2", 2, "liesel", "default", "free", "post", "si", None, 4, 16),
-    ("iwls", "vp", 2, "dict", "default", "forced", "post", "aZ", None, 2, 8),
+    ("iwls", "vp", 2, "dict", "default", "forced", "post", "aZ", None, 1, 8),
     ("iwls", "vg", 2, "dict", "default", "forced", "post", "pre", None, 1, 8),
-    ("iwls", "vp", 3, "dict", "default", "forced", "post", "gAb", None, 2, 10),
-    ("rw", "vp", 3, "dict", "default", "forced", "post", "gAb", None, 3, 12),
+    ("iwls", "vp", 3, "dict", "default", "forced", "post", "gAb", None, 1, 10),
+    ("rw", "vp", 3, "dict", "default", "forced", "post", "gAb", None, 2, 12),
     ("rw", "qt", 1, "dict", "default", "forced", "post", "x", None, 6, 40),
-    ("rw", "lg", 1, "dict", "default", "forced", "adapt", "x", None, 6, 24),
+    ("rw", "lg", 1, "dict", "default", "forced", "adapt", "x", None, 0, 24),
     ("rw", "vp", 2, "dict", "default", "forced", "post", "x", None, 6, 30),
     ("rw", "vp", 3, "dict", "default", "free", "post", "ba", None, 9, 60),
-    ("rw", "nn", 1, "liesel", "default", "forced", "post", "x", None, 6, 30),
+    ("rw", "nn", 1, "liesel", "default", "forced", "post", "x", None, 0, 30),
     ("mh", "gs", 1, "dict", "default", "forced", "post", "x", "ar", 6, 40),
     ("mh", "qt", 1, "dict", "default", "forced", "post", "x", "lin", 6, 40),
-    ("mh", "qt", 1, "dict", "default", "free", "post", "x", "ar", 9, 60),
+    ("mh", "qt", 1, "dict", "default", "free", "post", "x", "ar", 0, 60),
 ]
 # at most this many accepted free-stream vector IWLS transitions PER KEY LAYOUT get (expensive) R-lemmas
 FREE_VEC_CAP = {True: 1, False: 8}
@@ -516,6 +516,8 @@ def gen_cases(rnd, quick, scale=1.0, only_kernels=None):
     for (kernel, fam, n, iface, chol, mode, epoch, keys, decl, nq, nt) in PLAN:
         if only_kernels and kernel not in only_kernels:
             continue
+        if (nq if quick else nt) == 0:
+            continue            # thorough-only group
         cnt = max(1, int(round((nq if quick else nt) * scale)))
         # one parameter set per group in the quick tier (three in the thorough tier) keeps the number of jit
         # compilations small; parameters enter the traced function as constants
@@ -523,13 +525,15 @@ def gen_cases(rnd, quick, scale=1.0, only_kernels=None):
         Ps = []
         for _ in range(nsets):
             P = sample_params(rnd, fam, n)
+            if quick and fam == "gs":
+                P = {"m": 0.0, "p": 1.0}
             if chol == "user":
                 P["c0"], P["c2"] = rnd.choice([0.5, 1.0, 2.0]), rnd.choice([0.0, 0.5, 1.0])
             if chol == "const":
                 _, L = spd_tri(rnd, n)
                 P["L"] = L
             if decl == "ar":
-                P["rho"] = rnd.choice([0.5, 0.75, -0.5, 0.25])
+                P["rho"] = 0.5 if (quick and fam == "gs") else rnd.choice([0.5, 0.75, -0.5, 0.25])
             if decl == "lin":
                 P["k"] = rnd.choice([0.25, -0.5, 1.0])
             Ps.append(P)
@@ -539,7 +543,8 @@ def gen_cases(rnd, quick, scale=1.0, only_kernels=None):
             # r=3 x at 0; others random
             x = [dy(rnd, -2, 2) for _ in range(n)]
             z = [dy(rnd, -2, 2) for _ in range(n)]
-            s = STEP_SIZES[j % len(STEP_SIZES)] if j < 6 else rnd.choice(STEP_SIZES)
+            # (multi-key groups have few cases: start them at the larger step sizes, where a wrong score / Hessian shows most)
+            s = STEP_SIZES[(j + (0 if keys == "x" else 2)) % len(STEP_SIZES)] if j < 6 else rnd.choice(STEP_SIZES)
             if r == 0:
                 z = [0.0] * n
             elif r == 1:
@@ -789,12 +794,42 @@ def staged_lemmas(i, c):
     mx, mxp = mu(x, Lx), mu(xp, Lxp)
     b, f = logq(x, mxp, Lxp), logq(xp, mx, Lx)
     S, X, XP, Z = R(s), V(c["x"]), V(c["xp"]), V(c["z"])
+
+    # half-widths of the stage boxes.  They must contain the interval enclosure of the previous stage's box, so they
+    # are derived from first-order perturbation bounds (with generous factors), not fixed: in the tails the
+    # standardised residuals and L/s are large and a fixed width would make a stage lemma fail on correct code.
+    def wL_of(L):
+        return float(EPS_L) * np.maximum(1.0, np.abs(L))
+
+    def wm_of(a, L, m):
+        F = L @ L.T
+        dF = 2 * n * np.max(np.abs(L)) * np.max(wL_of(L))
+        Finv = np.linalg.inv(F)
+        bound = s * s / 2 * np.max(np.sum(np.abs(Finv), axis=1)) * dF * np.max(np.abs(Finv @ nsc(a)))
+        return np.maximum(float(EPS_M) * np.maximum(1.0, np.abs(m)), 20 * bound)
+
+    def wq_of(y, m, L, wm, v):
+        wl = wL_of(L)
+        zz = (y - m) @ (L / s)
+        dzz = (wm @ np.abs(L) + (np.abs(y - m) + wm) @ wl) / s
+        bound = float(np.sum(np.abs(zz) * dzz + dzz ** 2 / 2) + np.sum(np.diag(wl) / np.abs(np.diag(L))))
+        return max(float(EPS_Q) * max(1.0, abs(v)), 4 * bound)
+
+    def abox(v, w):
+        fv, fw = Fraction(float(v)), Fraction(float(w))
+        return qlitR(fv - fw), qlitR(fv + fw)
+
+    def avbox(vals, ws):
+        lo, hi = zip(*[abox(v, w) for v, w in zip(vals, ws)])
+        return lst(lo), lst(hi)
+    wmx, wmxp = wm_of(x, Lx, mx), wm_of(xp, Lxp, mxp)
+    wb, wf = wq_of(x, mxp, Lxp, wmxp, b), wq_of(xp, mx, Lx, wmx, f)
     PL = "(tbox %s %s)" % tboxes(tri_of_lower(Lx), EPS_L)
     PLp = "(tbox %s %s)" % tboxes(tri_of_lower(Lxp), EPS_L)
-    Pm = "(vbox %s %s)" % vboxes(mx, EPS_M)
-    Pmp = "(vbox %s %s)" % vboxes(mxp, EPS_M)
-    Pb = "(rbox %s %s)" % box(b, EPS_Q)
-    Pf = "(rbox %s %s)" % box(f, EPS_Q)
+    Pm = "(vbox %s %s)" % avbox(mx, wmx)
+    Pmp = "(vbox %s %s)" % avbox(mxp, wmxp)
+    Pb = "(rbox %s %s)" % abox(b, wb)
+    Pf = "(rbox %s %s)" % abox(f, wf)
     itv = f"interval with (i_prec {PREC})"
     cb = f"cbv [{CBV}]"
     w = {2: 1.0, 3: 2.5}[n]
@@ -817,7 +852,7 @@ def staged_lemmas(i, c):
     out.append((f"{pre}_bwd", f"forall L m, {PLp} L -> {Pmp} m -> {Pb} (logq_of {X} m L {S})", f"{openLm} {cb}. box_goals ltac:({itv}).", w))
     out.append((f"{pre}_fwd", f"forall L m, {PL} L -> {Pm} m -> {Pf} (logq_of {XP} m L {S})", f"{openLm} {cb}. box_goals ltac:({itv}).", w))
     # the two log-densities are only known to +-EPS_Q (relative to their size): the final tolerance follows
-    rel = max(1e-6, 40 * float(EPS_Q) * max(1.0, abs(b), abs(f)))
+    rel = max(1e-6, 20 * (wb + wf))
     if p >= 1:
         tol, pl = Fraction(1, 10 ** int(-math.ceil(math.log10(rel)))), "1"
         fin = f"intros b f Hb Hf. cbv [rbox] in Hb, Hf. apply alpha_agrees_one; [ lra | ]. {cb}. {itv}."
